@@ -512,6 +512,10 @@ def classvar_no_field(prog: Program, rep: Report, rule: str):
         return
     knows = lambda g: T.contains(g, lambda y: T.is_call_to(y, f"{C.INSP}.isclassvartype") or (y[0] == "ref" and y[1] in ("typing.ClassVar", "typing_extensions.ClassVar")))  # noqa: E731
     ok = all(any(knows(g) for g, _ in p.guards()) for p in fallback)
+    # ... and the private ones (no private name is ever a field: a lone `_cache: dict` declares none either)
+    private = lambda g: T.contains(g, lambda y: y[0] == "call" and y[1][0] == "attr" and y[1][2] == "startswith" and y[2][:1] == (("const", "_"),))  # noqa: E731
+    ok_private = all(any(private(g) for g, _ in p.guards()) for p in fallback)
+    rep.check(ok_private, rule, gh.qualname, gh.loc, "the signature fallback is decided on the public hints", "the constructor's signature is consulted only when every class-level annotation is a ClassVar: `class Client: _cache: dict; def __init__(self, host: str, port: int)` has the one private annotation as its only 'field' -- the routine knows `_cache` alone, host and port are dropped, unmarshal(Client, Client('h', 80)) raises TypeError or silently returns the defaults", detail="private-no-field")
     rep.check(ok, rule, gh.qualname, gh.loc, f"the signature fallback ({len(fallback)} path(s)) is decided on the hints that are no class variables", "the constructor's signature is consulted only when there is no class-level hint at all: a lone `registry: ClassVar[dict] = {}` on a plain class whose fields come from an annotated __init__(self, a: str, b: int) leaves the routine without any field -- marshal gives {}, unmarshal(V, V('1', 2)) raises TypeError (missing 'a')", detail="classvar-no-field")
 
 
